@@ -64,7 +64,9 @@ ASSUMPTIONS = ["terms are fixed points of rdflib's literal normalisation (what r
                "character-data and attribute-value escaping / reading); document syntax around the strings (JSON punctuation, XML markup) and "
                "byte encodings are exercised here but not modelled"]
 TRUSTED = ["harness/c16.py generators, canonicalisation and reference TSV writer (tied to Lean Spec.Tsv.render on "
-           "every case)", "lean/RV/C16/Drive.lean line protocol", "Python json / csv / xml.etree / expat"]
+           "every case)", "lean/RV/C16/Drive.lean line protocol",
+           "Python json / csv / xml.etree / expat around and below the modelled string level (JSON punctuation, XML markup, byte encodings)",
+           "the harness' tokenisers of JSON and XML documents (regex; a mis-tokenisation shows as a divergence, never hides one)"]
 
 SPARQL_NS = "http://www.w3.org/2005/sparql-results#"
 XML_NS = "http://www.w3.org/XML/1998/namespace"
@@ -882,13 +884,36 @@ def rand_xml_tokens(rng, strings):
     return out
 
 
-def text_level(case, st=None):
+def text_level(case, st=None, want_obs=True):
     """(driver lines, observations of the implementation) for the text level.  Computed by one function for both sides:
     the driver lines quote rdflib's own document (as `json-of` does), the observations are what Python's reader /
-    writer make of it."""
+    writer make of it (`want_obs=False`: `model_lines` needs only the driver lines; the readers are not run)."""
     lines, obs = [], []
     st = {} if st is None else st
     strings = case_strings(case)
+
+    def ob(f):
+        obs.append(f() if want_obs else "")
+
+    def xml_block(doc, enc_name):
+        """the two reader lines for one XML document of rdflib's"""
+        rattrs, rtexts = xml_raw_tokens(doc.decode(enc_name))
+        lines.append(" ".join(["xattr-read"] + [enc_str(x) for x in rattrs]))
+        lines.append(" ".join(["xtext-read"] + [enc_str(x) for x in rtexts]))
+        if not want_obs:
+            obs.extend(["", ""])
+            return rattrs, rtexts
+        try:
+            dattrs, dtexts = xml_decoded(doc)
+            obs.append(" ".join(["="] + ["ok:" + enc_str(x) for x in dattrs]))
+            obs.append(" ".join(["="] + ["ok:" + enc_str(x) for x in dtexts]))
+        except ET.ParseError:
+            # the document is not well-formed (C16-K1): token by token, the Lean reader must refuse what expat refuses
+            obs.append(" ".join(["="] + [py_xml_token("a", x) for x in rattrs]))
+            obs.append(" ".join(["="] + [py_xml_token("t", x) for x in rtexts]))
+            st["xtext_docs_not_wellformed"] = st.get("xtext_docs_not_wellformed", 0) + (1 if enc_name == "utf-8" else 0)
+        return rattrs, rtexts
+
     try:
         doc = build_result(case, "direct").serialize(format="json").decode("utf-8")
         toks = json_raw_tokens(doc)
@@ -900,114 +925,93 @@ def text_level(case, st=None):
         extra = list(case.get("jx", []))
         # reader: Lean `jsonLoadsStr` on every string token rdflib wrote (+ foreign / malformed tokens) == json.loads
         lines.append(" ".join(["jstr-loads"] + [enc_str(t) for t in toks + extra]))
-        obs.append(" ".join(["="] + ["ok:" + enc_str(x) for x in loaded] + [py_loads_token(t) for t in extra]))
+        ob(lambda: " ".join(["="] + ["ok:" + enc_str(x) for x in loaded] + [py_loads_token(t) for t in extra]))
         # writer: rdflib's spelling of each string is a spelling of the reference writer (choices read off the document)
         chs = [derive_jchoices(t, x) for t, x in zip(toks, loaded)] if len(toks) == len(loaded) else []
         lines.append(" ".join(["jstr-spell"] + [enc_str(x) + "/" + (".".join(map(str, ks)) if ks else "-" if ks is not None else "9")
                                                 for x, ks in zip(loaded, chs)]))
-        obs.append(" ".join(["="] + [enc_str(t) for t in toks]))
-        st["jtext_tokens"] = len(toks)
-        st["jtext_doc_minimal_spelling"] = int(all(ks is not None and not any(ks) for ks in chs))
-        st["jtext_foreign_tokens"] = len(extra)
-        st["jtext_foreign_errors"] = sum(1 for t in extra if py_loads_token(t).startswith("err"))
+        ob(lambda: " ".join(["="] + [enc_str(t) for t in toks]))
+        if want_obs:
+            st["jtext_tokens"] = len(toks)
+            st["jtext_doc_minimal_spelling"] = int(all(ks is not None and not any(ks) for ks in chs))
+            st["jtext_foreign_tokens"] = len(extra)
+            st["jtext_foreign_errors"] = sum(1 for t in extra if py_loads_token(t).startswith("err"))
     # Python's two string encoders on every string of the table
     for a in (0, 1):
         lines.append(" ".join(["jstr-dumps", str(a)] + [enc_str(x) for x in strings]))
-        obs.append(" ".join(["="] + [enc_str(json.dumps(x, ensure_ascii=bool(a))) for x in strings]))
-    if case["kind"] == "select":
-        # ---- CSV text: rdflib's document read by the Lean reader; the Lean writer's document read by rdflib
-        try:
-            cdoc = build_result(case, "direct").serialize(format="csv").decode("utf-8")
-            own = parse_canon(cdoc.encode("utf-8"), "csv", "bytes")
-        except Exception as e:  # noqa: BLE001
-            lines += ["const " + err_name(e)] * 2
-            obs += [err_name(e)] * 2
-        else:
-            lines.append("ctext-of " + enc_str(cdoc))
-            obs.append(own)
-            lines.append("ctext-write " + enc_case_result(case))      # completed in select_model_obs
-            obs.append(own)
-            st["ctext_quoted_fields"] = cdoc.count('"') - 2 * cdoc.count('""') > 0 and 1 or 0
-        if "cq" in case:
-            lf, qss = case["cq"]
-            table = csv_field_table(case)
-            text = csv_render(table, qss, lf)
-            lines.append(" ".join(["ctext-render", str(int(bool(lf))), str(len(table))] + [
-                w for i, row in enumerate(table) for w in [str(len(row))] + [
-                    "%d:%s" % ((qss[i][j] if i < len(qss) and j < len(qss[i]) else 0), enc_str(f)) for j, f in enumerate(row)]]))
-            obs.append("= " + enc_str(text))
-            lines.append("ctext-of " + enc_str(text))
-            obs.append(parse_canon(text.encode("utf-8"), "csv", case["src"] if case["src"] in ("bytes", "text") else "bytes"))
-            st["ctext_foreign_docs"] = 1
-            st["ctext_foreign_lf"] = int(bool(lf))
-        for t in case.get("cx", []):
-            lines.append("ctext-parse " + enc_str(t))
-            obs.append(py_csv_parse(t))
-            st["ctext_arbitrary_texts"] = st.get("ctext_arbitrary_texts", 0) + 1
-        # ---- XML text: the strings of rdflib's document as spelled, read by the Lean reader == as expat delivers them
-        try:
-            xdoc = build_result(case, "direct").serialize(format="xml")
-            own = parse_canon(xdoc, "xml", "bytes")
-            rattrs, rtexts = xml_raw_tokens(xdoc.decode("utf-8"))
-        except Exception as e:  # noqa: BLE001
-            lines += ["const " + err_name(e)] * 4
-            obs += [err_name(e)] * 4
-        else:
-            try:
-                dattrs, dtexts = xml_decoded(xdoc)
-                oa = " ".join(["="] + ["ok:" + enc_str(x) for x in dattrs])
-                ot = " ".join(["="] + ["ok:" + enc_str(x) for x in dtexts])
-                lines.append(" ".join(["xattr-read"] + [enc_str(x) for x in rattrs]))
-                lines.append(" ".join(["xtext-read"] + [enc_str(x) for x in rtexts]))
-                obs += [oa, ot]
-                st["xtext_tokens"] = len(rattrs) + len(rtexts)
-            except ET.ParseError:
-                # the document is not well-formed (C16-K1): token by token, the Lean reader must refuse what expat refuses
-                lines.append(" ".join(["xattr-read"] + [enc_str(x) for x in rattrs]))
-                lines.append(" ".join(["xtext-read"] + [enc_str(x) for x in rtexts]))
-                obs.append(" ".join(["="] + [py_xml_token("a", x) for x in rattrs]))
-                obs.append(" ".join(["="] + [py_xml_token("t", x) for x in rtexts]))
-                st["xtext_docs_not_wellformed"] = 1
-            # writer: a document assembled from the Lean writer's spellings, read by rdflib (completed in select_model_obs)
-            wattrs, wtexts = xml_doc_strings(case)
-            lines.append(" ".join(["xdoc-attrs"] + [enc_str(x) for x in wattrs]))
-            lines.append(" ".join(["xdoc-texts"] + [enc_str(x) for x in wtexts]))
-            obs += ["(see next line)", own]
-        # ---- the same under `encoding="ascii"`: every character the encoding lacks is a decimal character reference
-        try:
-            adoc = build_result(case, "direct").serialize(format="xml", encoding="ascii")
-            aown = parse_canon(adoc, "xml", "bytes")
-            rattrs, rtexts = xml_raw_tokens(adoc.decode("ascii"))
-        except Exception as e:  # noqa: BLE001
-            lines += ["const " + err_name(e)] * 4
-            obs += [err_name(e)] * 4
-        else:
-            try:
-                dattrs, dtexts = xml_decoded(adoc)
-                oa = " ".join(["="] + ["ok:" + enc_str(x) for x in dattrs])
-                ot = " ".join(["="] + ["ok:" + enc_str(x) for x in dtexts])
-            except ET.ParseError:
-                oa = " ".join(["="] + [py_xml_token("a", x) for x in rattrs])
-                ot = " ".join(["="] + [py_xml_token("t", x) for x in rtexts])
-            lines.append(" ".join(["xattr-read"] + [enc_str(x) for x in rattrs]))
-            lines.append(" ".join(["xtext-read"] + [enc_str(x) for x in rtexts]))
-            obs += [oa, ot]
-            wattrs, wtexts = xml_doc_strings(case)
-            # attribute values: quoteattr, then the codec's xmlcharrefreplace (attributes under an encoding are not modelled)
-            lines.append("echo XATTR " + " ".join(enc_str(_sax_quoteattr(x).encode("ascii", "xmlcharrefreplace").decode("ascii")) for x in wattrs))
-            lines.append(" ".join(["xdoc-texts-ascii"] + [enc_str(x) for x in wtexts]))
-            obs += ["(see next line)", aown]
-            st["xtext_ascii_charrefs"] = sum(t.count("&#") for t in rtexts)
-        # `quoteattr` itself (the standard library function rdflib's writer relies on)
-        wattrs = xml_doc_strings(case)[0]
-        lines.append(" ".join(["xattr-write"] + [enc_str(x) for x in wattrs]))
-        obs.append(" ".join(["="] + [enc_str(_sax_quoteattr(x)) for x in wattrs]))
-        xx = case.get("xx", [])
-        if xx:
-            lines.append(" ".join(["xattr-read"] + [enc_str(r) for k, r in xx if k == "a"]))
-            obs.append(" ".join(["="] + [py_xml_token(k, r) for k, r in xx if k == "a"]))
-            lines.append(" ".join(["xtext-read"] + [enc_str(r) for k, r in xx if k == "t"]))
-            obs.append(" ".join(["="] + [py_xml_token(k, r) for k, r in xx if k == "t"]))
+        ob(lambda: " ".join(["="] + [enc_str(json.dumps(x, ensure_ascii=bool(a))) for x in strings]))
+    if case["kind"] != "select":
+        return lines, obs
+    # ---- CSV text: rdflib's document read by the Lean reader; the Lean writer's document read by rdflib
+    try:
+        cdoc = build_result(case, "direct").serialize(format="csv").decode("utf-8")
+    except Exception as e:  # noqa: BLE001
+        lines += ["const " + err_name(e)] * 2
+        obs += [err_name(e)] * 2
+    else:
+        own = parse_canon(cdoc.encode("utf-8"), "csv", "bytes") if want_obs else ""
+        lines.append("ctext-of " + enc_str(cdoc))
+        obs.append(own)
+        lines.append("ctext-write " + enc_case_result(case))      # completed in select_model_obs
+        obs.append(own)
+        st["ctext_quoted_fields"] = int(cdoc.count('"') - 2 * cdoc.count('""') > 0)
+    if "cq" in case:
+        lf, qss = case["cq"]
+        table = csv_field_table(case)
+        text = csv_render(table, qss, lf)
+        lines.append(" ".join(["ctext-render", str(int(bool(lf))), str(len(table))] + [
+            w for i, row in enumerate(table) for w in [str(len(row))] + [
+                "%d:%s" % ((qss[i][j] if i < len(qss) and j < len(qss[i]) else 0), enc_str(f)) for j, f in enumerate(row)]]))
+        obs.append("= " + enc_str(text))
+        lines.append("ctext-of " + enc_str(text))
+        ob(lambda: parse_canon(text.encode("utf-8"), "csv", case["src"] if case["src"] in ("bytes", "text") else "bytes"))
+        st["ctext_foreign_docs"] = 1
+        st["ctext_foreign_lf"] = int(bool(lf))
+    for t in case.get("cx", []):
+        lines.append("ctext-parse " + enc_str(t))
+        ob(lambda: py_csv_parse(t))
+        st["ctext_arbitrary_texts"] = st.get("ctext_arbitrary_texts", 0) + 1
+    # ---- XML text: the strings of rdflib's document as spelled, read by the Lean reader == as expat delivers them
+    wattrs, wtexts = xml_doc_strings(case)
+    try:
+        xdoc = build_result(case, "direct").serialize(format="xml")
+        xdoc.decode("utf-8")
+    except Exception as e:  # noqa: BLE001
+        lines += ["const " + err_name(e)] * 4
+        obs += [err_name(e)] * 4
+    else:
+        rattrs, rtexts = xml_block(xdoc, "utf-8")
+        st["xtext_tokens"] = len(rattrs) + len(rtexts)
+        # writer: a document assembled from the Lean writer's spellings, read by rdflib (completed in select_model_obs)
+        lines.append(" ".join(["xdoc-attrs"] + [enc_str(x) for x in wattrs]))
+        lines.append(" ".join(["xdoc-texts"] + [enc_str(x) for x in wtexts]))
+        obs.append("(see next line)")
+        ob(lambda: parse_canon(xdoc, "xml", "bytes"))
+    # ---- the same under `encoding="ascii"`: every character the encoding lacks is a decimal character reference
+    try:
+        adoc = build_result(case, "direct").serialize(format="xml", encoding="ascii")
+        adoc.decode("ascii")
+    except Exception as e:  # noqa: BLE001
+        lines += ["const " + err_name(e)] * 4
+        obs += [err_name(e)] * 4
+    else:
+        rattrs, rtexts = xml_block(adoc, "ascii")
+        # attribute values: quoteattr, then the codec's xmlcharrefreplace (attributes under an encoding are not modelled)
+        lines.append("echo XATTR " + " ".join(enc_str(_sax_quoteattr(x).encode("ascii", "xmlcharrefreplace").decode("ascii")) for x in wattrs))
+        lines.append(" ".join(["xdoc-texts-ascii"] + [enc_str(x) for x in wtexts]))
+        obs.append("(see next line)")
+        ob(lambda: parse_canon(adoc, "xml", "bytes"))
+        st["xtext_ascii_charrefs"] = sum(t.count("&#") for t in rtexts)
+    # `quoteattr` itself (the standard library function rdflib's writer relies on)
+    lines.append(" ".join(["xattr-write"] + [enc_str(x) for x in wattrs]))
+    ob(lambda: " ".join(["="] + [enc_str(_sax_quoteattr(x)) for x in wattrs]))
+    xx = case.get("xx", [])
+    if xx:
+        lines.append(" ".join(["xattr-read"] + [enc_str(r) for k, r in xx if k == "a"]))
+        ob(lambda: " ".join(["="] + [py_xml_token(k, r) for k, r in xx if k == "a"]))
+        lines.append(" ".join(["xtext-read"] + [enc_str(r) for k, r in xx if k == "t"]))
+        ob(lambda: " ".join(["="] + [py_xml_token(k, r) for k, r in xx if k == "t"]))
+        if want_obs:
             st["xtext_foreign_tokens"] = len(xx)
             st["xtext_foreign_errors"] = sum(1 for k, r in xx if py_xml_token(k, r).startswith("err"))
     return lines, obs
@@ -1429,7 +1433,7 @@ def model_lines(case):
             else:
                 ops = " ".join("k%d" % o[1] if o[0] == "take" else "f" for o in case["hist"])
                 lines.append(("hist " + lazy + " " + r + " | " + ops).rstrip())
-    lines += text_level(case)[0]
+    lines += text_level(case, want_obs=False)[0]
     return lines
 
 
